@@ -317,6 +317,9 @@ pub fn run_c11(ctx: &mut Ctx) {
     // directed: far jumps against an existing buffer, and a slow crawl that stays inside the reserve
     directed_jumps(rep, if level == 0 { &[6] } else { &[0, 1, 2, 3, 4, 5, 6] });
     directed_window(rep, &mut r, if level == 0 { 2 } else { (budget / 20).max(40) as usize });
+    direct_splice(rep, &mut r, if level == 0 { 20 } else { 2000 });
+    rep.floor("direct_splice_refused", 1);
+    rep.floor("direct_splice_ok", 1);
     if cfg!(has_block_hook) {
         rep.floor("window_jumps_rejected", 1);
         rep.floor("window_jumps_admitted", 1);
@@ -399,6 +402,66 @@ fn directed_window(rep: &mut Report, r: &mut Rng, rounds: usize) {
                     rep.count("window_admissible_jump_refused");
                 } else {
                     rep.count("window_jumps_admitted");
+                }
+            }
+        }
+    }
+}
+
+
+/// The public helper behind the buffer bound, exercised directly against a model:
+/// extension beyond `max` is refused and leaves the vector untouched; otherwise the result is the
+/// zero-extended vector with the range replaced.
+fn direct_splice(rep: &mut Report, r: &mut Rng, n: usize) {
+    use coap_lite::block_handler::extending_splice;
+    for _ in 0..n {
+        rep.eval();
+        let len = r.usize_below(300);
+        let start = r.usize_below(400);
+        let width = r.usize_below(80);
+        let max = *r.pick(&[0usize, 1, 16, 64, 100, 16384]);
+        let repl_len = r.usize_below(100);
+        let inclusive = r.bool();
+        let dst0: Vec<u8> = (0..len).map(|i| (i % 251) as u8 + 1).collect();
+        let repl: Vec<u8> = (0..repl_len).map(|i| 200 + (i % 50) as u8).collect();
+        let end_excl = start + width;
+        if inclusive && width == 0 {
+            continue;
+        }
+        let mut dst = dst0.clone();
+        let res = crate::panicwatch::guard(|| {
+            let ok = if inclusive {
+                extending_splice(&mut dst, start..=end_excl - 1, repl.iter().copied(), max).map(|sp| drop(sp)).is_ok()
+            } else {
+                extending_splice(&mut dst, start..end_excl, repl.iter().copied(), max).map(|sp| drop(sp)).is_ok()
+            };
+            ok
+        });
+        let wit = format!("extending_splice(len {}, {}..{}{}, {} replacement bytes, max {})", len, start, if inclusive { "=" } else { "" }, if inclusive { end_excl - 1 } else { end_excl }, repl_len, max);
+        let need = end_excl.saturating_sub(len);
+        match res {
+            Err(p) => rep.violation(&format!("extending_splice:{}", p.sig()), p.text(), wit),
+            Ok(ok) => {
+                if need > max {
+                    if ok || dst != dst0 {
+                        rep.violation("extending-splice-beyond-reserve", format!("extension by {} accepted (ok={}) or vector changed ({} -> {} bytes)", need, ok, dst0.len(), dst.len()), wit);
+                    } else {
+                        rep.count("direct_splice_refused");
+                    }
+                } else {
+                    let mut model = dst0.clone();
+                    if model.len() < end_excl {
+                        model.resize(end_excl, 0);
+                    }
+                    let tail: Vec<u8> = model[end_excl..].to_vec();
+                    model.truncate(start);
+                    model.extend_from_slice(&repl);
+                    model.extend_from_slice(&tail);
+                    if !ok || dst != model {
+                        rep.violation("extending-splice-result", format!("ok={} result {} bytes, model {} bytes", ok, dst.len(), model.len()), wit);
+                    } else {
+                        rep.count("direct_splice_ok");
+                    }
                 }
             }
         }
